@@ -51,6 +51,7 @@ def decHandler (s : String) : Option Handler :=
 def decOp (tok : String) : Option Op :=
   if tok == "q0" then some (.request .returnsNoRead) else if tok == "q1" then some (.request .returnsAfterRead)
   else if tok == "q2" then some (.request .raisesAfterRead) else if tok == "q3" then some (.request .keyboardInterrupt)
+  else if tok == "q6" then some (.request .raisesInPaste)
   else if tok == "q4" then some (.request .returnsAfterPaste) else if tok == "q5" then some (.request .emptyRead)
   else if tok == "r" then some .render else if tok == "t" then some .mkTrigger
   else if tok == "T" then some .mkThreadsafeTrigger
